@@ -287,14 +287,9 @@ int main(int argc, char** argv)
     while (std::getline(std::cin, line)) lines.push_back(line);
     const size_t n = lines.size();
     size_t workers = 1;
-    if (n >= 8) workers = std::min<size_t>(12, n / 4);
+    if (n >= 8) workers = std::min<size_t>(12, n / 4);   // a single worker still runs in a forked child, so that an abort is reported per case
     if (const char* e = getenv("VERIF_CHAINSEL_WORKERS")) workers = std::max(1, atoi(e));
-    if (workers <= 1) {
-        for (const auto& l : lines) std::cout << guarded(l) << "\n";
-        std::cout.flush();
-        cleanup_dir();
-        return 0;
-    }
+    if (workers < 1) workers = 1;
     // no thread and no fixture exists yet: fork is safe. A worker handles its cases in order and appends one
     // result line per case to its file; if it dies (an assertion of the node fires), the case it was on is
     // reported as CRASH and a new worker takes over the rest.
